@@ -2,7 +2,7 @@ package main
 
 // C06: output generation (internal/gen) for the four builtin templates.
 //
-// c06 <script hex> <ir|err> <template> <impl output hex|err|panic> <chain> <ops> <reload>
+// c06 <script hex> <ir|err> <names before allocation|-> <template> <impl output hex|err|panic> <chain> <ops> <reload>
 //
 // ir: acc.Translate of the parsed script, before any pass (dump format of c05).
 // chain / ops: what acc.LoadString computes for the script (the evaluated chain, the unrolled
@@ -182,9 +182,10 @@ func c06Case(g *Gen, text string) bool {
 		g.Count("skip-not-loadable")
 		return false
 	}
-	irDump := "err"
+	irDump, preNames := "err", "-"
 	if p, err := acc.Translate(ch); err == nil {
 		irDump = c05DumpIR(p)
+		preNames = c05PreNames(p)
 	}
 	chain := encInts(loaded.Chain)
 	ops := encOps(loaded.Program)
@@ -223,7 +224,7 @@ func c06Case(g *Gen, text string) bool {
 		if pn != "" {
 			out = "panic"
 		}
-		g.Line("c06", encHex(text), irDump, name, out, chain, ops, reload)
+		g.Line("c06", encHex(text), irDump, preNames, name, out, chain, ops, reload)
 	}
 	return true
 }
